@@ -21,7 +21,7 @@ from .core import (Tape, World, Violation, SimAbort, derive_seed,
                    match_known)
 
 VERIF = os.path.dirname(os.path.dirname(os.path.abspath(__file__)))
-REPO = "/repo"
+REPO = os.environ.get("VERIF_REPO", "/repo")
 PY = "/venv/bin/python"
 
 
